@@ -472,22 +472,28 @@ Definition quiet (st st' : state) : Prop :=
   forall o ob, get st o = Some ob -> ofrozen ob = true -> agree st st' o.
 
 (* flags and caches of existing objects are untouched; new objects start with an empty cache *)
+Definition kept (ob ob' : obj) : Prop := (ofrozen ob' = ofrozen ob /\ ocache ob' = ocache ob) \/ ocache ob' = [].
 Definition frame (st st' : state) : Prop :=
   inflight st' = inflight st /\
-  (forall o ob, get st o = Some ob -> exists ob', get st' o = Some ob' /\ ofrozen ob' = ofrozen ob /\ ocache ob' = ocache ob) /\
+  (forall o ob, get st o = Some ob -> exists ob', get st' o = Some ob' /\ kept ob ob') /\
   (forall o ob', get st o = None -> get st' o = Some ob' -> ocache ob' = []).
 
+Lemma kept_refl : forall ob, kept ob ob.
+Proof. intros. left. auto. Qed.
+Lemma kept_trans : forall a b c, kept a b -> kept b c -> kept a c.
+Proof. intros a b c [[F1 C1]|E1] [[F2 C2]|E2]; [left; split; congruence|now right|right; congruence|now right]. Qed.
+
 Lemma frame_refl : forall st, frame st st.
-Proof. intros st. split; auto. split; [intros o ob G; exists ob; auto|]. intros o ob' G G'. congruence. Qed.
+Proof. intros st. split; auto. split; [intros o ob G; exists ob; split; auto; apply kept_refl|]. intros o ob' G G'. congruence. Qed.
 
 Lemma frame_trans : forall a b c, frame a b -> frame b c -> frame a c.
 Proof.
   intros a b c (I1 & E1 & N1) (I2 & E2 & N2). split; [congruence|]. split.
-  - intros o ob G. destruct (E1 o ob G) as (ob1 & G1 & F1 & C1). destruct (E2 o ob1 G1) as (ob2 & G2 & F2 & C2).
-    exists ob2. repeat split; congruence.
+  - intros o ob G. destruct (E1 o ob G) as (ob1 & G1 & K1). destruct (E2 o ob1 G1) as (ob2 & G2 & K2).
+    exists ob2. split; auto. now apply (kept_trans ob ob1 ob2).
   - intros o ob' G G'. destruct (get b o) as [ob1|] eqn:Gb.
-    + destruct (E2 o ob1 Gb) as (ob2 & G2 & F2 & C2). rewrite G' in G2. injection G2 as <-.
-      rewrite C2. now apply (N1 o ob1).
+    + destruct (E2 o ob1 Gb) as (ob2 & G2 & K2). rewrite G' in G2. injection G2 as <-.
+      destruct K2 as [[F2 C2]|E]; auto. rewrite C2. now apply (N1 o ob1).
     + now apply (N2 o ob').
 Qed.
 
@@ -495,13 +501,14 @@ Theorem inv_frame : forall st st', Inv st -> frame st st' -> quiet st st' -> Inv
 Proof.
   intros st st' [V U] (Hi & E & N) Q. split.
   - intros o ob' k v G' F' L'. destruct (get st o) as [ob|] eqn:G.
-    + destruct (E o ob G) as (ob1 & G1 & F1 & C1). rewrite G' in G1. injection G1 as <-.
+    + destruct (E o ob G) as (ob1 & G1 & K1). rewrite G' in G1. injection G1 as <-.
+      destruct K1 as [[F1 C1]|E1]; [|rewrite E1 in L'; discriminate].
       rewrite (pure_key_local st st' o k Hi); [|apply (Q o ob G); congruence].
       apply (V o ob k v); auto; congruence.
     + rewrite (N o ob' G G') in L'. discriminate.
   - intros o ob' G' F'. destruct (get st o) as [ob|] eqn:G.
-    + destruct (E o ob G) as (ob1 & G1 & F1 & C1). rewrite G' in G1. injection G1 as <-.
-      rewrite C1. apply (U o ob G). congruence.
+    + destruct (E o ob G) as (ob1 & G1 & K1). rewrite G' in G1. injection G1 as <-.
+      destruct K1 as [[F1 C1]|E1]; auto. rewrite C1. apply (U o ob G). congruence.
     + now apply (N o ob').
 Qed.
 
@@ -525,8 +532,8 @@ Proof.
   intros o f Hf st. unfold modify. destruct (get st o) as [ob|] eqn:G; simpl; [|apply frame_refl].
   split; auto. split.
   - intros o' ob' G'. destruct (Nat.eq_dec o o') as [->|Hne].
-    + rewrite G in G'. injection G' as <-. exists (f ob). rewrite (get_put_eq _ _ _ _ G). destruct (Hf ob). auto.
-    + exists ob'. rewrite get_put_neq by auto. auto.
+    + rewrite G in G'. injection G' as <-. exists (f ob). rewrite (get_put_eq _ _ _ _ G). destruct (Hf ob). split; auto. now left.
+    + exists ob'. rewrite get_put_neq by auto. split; auto. apply kept_refl.
   - intros o' ob' G' G''. destruct (Nat.eq_dec o o') as [->|Hne]; [congruence|].
     rewrite get_put_neq in G'' by auto. congruence.
 Qed.
@@ -567,15 +574,15 @@ Lemma frame_extend : forall st ext pt, Forall (fun ob => ocache ob = []) ext ->
   frame st (mkState (heap st ++ ext) (inflight st) pt).
 Proof.
   intros st ext pt Hext. split; auto. split.
-  - intros o ob G. exists ob. split; auto. now apply get_app_old.
+  - intros o ob G. exists ob. split; [now apply get_app_old|apply kept_refl].
   - intros o ob' G G'. unfold get in *. simpl in G'. apply nth_error_None in G.
     rewrite nth_error_app2 in G' by exact G. apply nth_error_In in G'.
     rewrite Forall_forall in Hext. now apply Hext.
 Qed.
 
-Lemma Frm_op_new : forall k a ni, Frm (op_new k a ni).
+Lemma Frm_op_new : forall cfg k a ni, Frm (op_new cfg k a ni).
 Proof.
-  intros k a ni st. unfold op_new.
+  intros cfg k a ni st. unfold op_new.
   assert (F : frame st (mkState (heap st ++ [new_obj st k a ni]) (inflight st) (ptab st))).
   { apply frame_extend. constructor; auto. }
   destruct k; simpl; auto. destruct (existsb _ a); simpl; auto. apply frame_refl.
@@ -585,7 +592,7 @@ Lemma Frm_set_pid : forall p i, Frm (set_pid p i).
 Proof.
   intros p i st. unfold set_pid. destruct (nth_error (ptab st) p) as [[j l]|]; simpl; [|apply frame_refl].
   split; auto. split.
-  - intros o ob G. exists ob. auto.
+  - intros o ob G. exists ob. split; auto. apply kept_refl.
   - intros o ob' G G'. unfold get in *. simpl in G'. congruence.
 Qed.
 
@@ -600,53 +607,212 @@ Proof.
   apply Frm_bind; [apply Frm_gets|]. intros [|]; [apply Frm_raise|apply Frm_modify; intros; auto].
 Qed.
 
-(* deepcopy only appends objects with empty caches *)
-Definition appends (cs cs' : cstate) : Prop :=
-  exists ext, cheap cs' = cheap cs ++ ext /\ Forall (fun ob => ocache ob = []) ext.
+(* ------------------------------------------------------------------ copies and restores *)
+(* a heap that differs from h only by flag / cache changes which leave `kept`, plus new objects with empty caches *)
+Definition hframe (h h' : list obj) : Prop :=
+  List.length h <= List.length h' /\
+  (forall o ob, nth_error h o = Some ob -> exists ob', nth_error h' o = Some ob' /\ kept ob ob') /\
+  (forall o ob', nth_error h o = None -> nth_error h' o = Some ob' -> ocache ob' = []).
 
-Lemma appends_refl : forall cs, appends cs cs.
-Proof. intros cs. exists []. split; [now rewrite app_nil_r|constructor]. Qed.
+Lemma hframe_refl : forall h, hframe h h.
+Proof. intros h. split; auto. split; [intros o ob G; exists ob; split; auto; apply kept_refl|]. intros; congruence. Qed.
 
-Lemma appends_trans : forall a b c, appends a b -> appends b c -> appends a c.
+Lemma hframe_trans : forall a b c, hframe a b -> hframe b c -> hframe a c.
 Proof.
-  intros a b c (e1 & E1 & F1) (e2 & E2 & F2). exists (e1 ++ e2). split.
-  - rewrite E2, E1. now rewrite app_assoc.
-  - apply Forall_app. auto.
+  intros a b c (L1 & E1 & N1) (L2 & E2 & N2). split; [lia|]. split.
+  - intros o ob G. destruct (E1 o ob G) as (ob1 & G1 & K1). destruct (E2 o ob1 G1) as (ob2 & G2 & K2).
+    exists ob2. split; auto. now apply (kept_trans ob ob1 ob2).
+  - intros o ob' G G'. destruct (nth_error b o) as [ob1|] eqn:Gb.
+    + destruct (E2 o ob1 Gb) as (ob2 & G2 & K2). rewrite G' in G2. injection G2 as <-.
+      destruct K2 as [[F2 C2]|E]; auto. rewrite C2. now apply (N1 o ob1).
+    + now apply (N2 o ob').
 Qed.
 
-Lemma copy_attrs_appends : forall f, (forall v cs, appends cs (fst (f v cs))) ->
-  forall l cs, appends cs (fst (copy_attrs f l cs)).
+Lemma hframe_app : forall h x, ocache x = [] -> hframe h (h ++ [x]).
 Proof.
-  intros f Hf. induction l as [|[k v] l IH]; intros cs; simpl; [apply appends_refl|].
+  intros h x Hx. split; [rewrite app_length; simpl; lia|]. split.
+  - intros o ob G. exists ob. split; [|apply kept_refl]. rewrite nth_error_app1; auto. apply nth_error_Some. congruence.
+  - intros o ob' G G'. apply nth_error_None in G. rewrite nth_error_app2 in G' by exact G.
+    destruct (o - List.length h); simpl in G'; [now injection G' as <-|destruct n; discriminate].
+Qed.
+
+Lemma hframe_update : forall h i x, ocache x = [] -> hframe h (update h i x).
+Proof.
+  intros h i x Hx. split; [now rewrite update_length|]. split.
+  - intros o ob G. destruct (Nat.eq_dec i o) as [->|Hne].
+    + exists x. split; [|now right]. apply nth_error_update_eq. apply nth_error_Some. congruence.
+    + exists ob. split; [|apply kept_refl]. now rewrite nth_error_update_neq.
+  - intros o ob' G G'. destruct (Nat.eq_dec i o) as [->|Hne].
+    + apply nth_error_None in G. assert (List.length (update h o x) <= o) by (now rewrite update_length).
+      apply nth_error_None in H. congruence.
+    + rewrite nth_error_update_neq in G' by auto. congruence.
+Qed.
+
+Lemma hframe_retuple_one : forall b base h kv, hframe h (retuple_one b base h kv).
+Proof.
+  intros b base h [k v]. unfold retuple_one. simpl. destruct v as [p|c|u]; try apply hframe_refl.
+  destruct (Nat.leb base u); [|apply hframe_refl]. destruct (nth_error h u) as [ub|]; [|apply hframe_refl].
+  destruct (okind ub); try apply hframe_refl. now apply hframe_update.
+Qed.
+
+Lemma hframe_retuple : forall b base attrs h, hframe h (retuple b base h attrs).
+Proof.
+  intros b base. unfold retuple. induction attrs as [|kv attrs IH]; intros h; simpl; [apply hframe_refl|].
+  apply (hframe_trans h (retuple_one b base h kv)); [apply hframe_retuple_one|apply IH].
+Qed.
+
+Lemma copy_attrs_hframe : forall f, (forall v cs, hframe (cheap cs) (cheap (fst (f v cs)))) ->
+  forall l cs, hframe (cheap cs) (cheap (fst (copy_attrs f l cs))).
+Proof.
+  intros f Hf. induction l as [|[k v] l IH]; intros cs; simpl; [apply hframe_refl|].
   pose proof (Hf v cs) as A1. destruct (f v cs) as [cs1 v']. simpl in A1.
   pose proof (IH cs1) as A2. destruct (copy_attrs f l cs1) as [cs2 r']. simpl in *.
-  now apply (appends_trans cs cs1 cs2).
+  now apply (hframe_trans (cheap cs) (cheap cs1) (cheap cs2)).
 Qed.
 
-Lemma update_app_mid : forall {A} (h : list A) x r y, update (h ++ x :: r) (List.length h) y = h ++ y :: r.
-Proof. induction h as [|a h IH]; intros; simpl; auto. now rewrite IH. Qed.
-
-Lemma copy_val_appends : forall n v cs, appends cs (fst (copy_val n v cs)).
+Lemma copy_val_hframe : forall cfg db n v cs, hframe (cheap cs) (cheap (fst (copy_val cfg db n v cs))).
 Proof.
-  induction n as [|n IH]; intros v cs; destruct v as [p|c|c]; simpl; try apply appends_refl.
-  - destruct (nassoc p (cpmemo cs)); [apply appends_refl|]. destruct (nth_error (cptab cs) p); [|apply appends_refl].
-    simpl. exists []. split; [now rewrite app_nil_r|constructor].
-  - destruct (nassoc c (cmemo cs)); apply appends_refl.
-  - destruct (nassoc p (cpmemo cs)); [apply appends_refl|]. destruct (nth_error (cptab cs) p); [|apply appends_refl].
-    simpl. exists []. split; [now rewrite app_nil_r|constructor].
-  - destruct (nassoc c (cmemo cs)); [apply appends_refl|].
-    destruct (nth_error (cheap cs) c) as [ob|]; [|apply appends_refl].
-    set (cs1 := mkC (cheap cs ++ [with_cache ob []]) ((c, List.length (cheap cs)) :: cmemo cs) (cptab cs) (cpmemo cs)).
-    pose proof (copy_attrs_appends (copy_val n) IH (oattrs ob) cs1) as (ext & E & F).
-    destruct (copy_attrs (copy_val n) (oattrs ob) cs1) as [cs2 a']. simpl in *.
-    exists (with_cache (with_attrs ob a') [] :: ext). split.
-    + rewrite E. rewrite <- app_assoc. simpl. apply update_app_mid.
-    + constructor; auto.
+  intros cfg db. induction n as [|n IH]; intros v cs; destruct v as [p|c|c]; simpl; try apply hframe_refl.
+  - destruct (if db then None else nassoc p (cpmemo cs)); [apply hframe_refl|].
+    destruct (nth_error (cptab cs) p); apply hframe_refl.
+  - destruct (if db then None else nassoc c (cmemo cs)); apply hframe_refl.
+  - destruct (if db then None else nassoc p (cpmemo cs)); [apply hframe_refl|].
+    destruct (nth_error (cptab cs) p); apply hframe_refl.
+  - destruct (if db then None else nassoc c (cmemo cs)); [apply hframe_refl|].
+    destruct (nth_error (cheap cs) c) as [ob|]; [|apply hframe_refl].
+    set (nb := if db then with_nitems (with_frozen (with_cache ob []) false) (db_nitems ob) else with_cache ob []).
+    assert (Hnb : ocache nb = []) by (unfold nb; destruct db; reflexivity).
+    set (cs1 := mkC (cheap cs ++ [nb]) _ _ _ _ _).
+    pose proof (copy_attrs_hframe (copy_val cfg db n) IH (oattrs ob) cs1) as H2.
+    destruct (copy_attrs (copy_val cfg db n) (oattrs ob) cs1) as [cs2 a']. simpl in *.
+    apply (hframe_trans (cheap cs) (cheap cs ++ [nb])); [now apply hframe_app|].
+    apply (hframe_trans _ (cheap cs2)); [exact H2|].
+    apply (hframe_trans _ (update (cheap cs2) (List.length (cheap cs)) (with_attrs nb a'))); [now apply hframe_update|].
+    destruct (gtuple cfg && trestore cfg && is_pm_kind (okind ob)); [apply hframe_retuple|apply hframe_refl].
 Qed.
 
-Lemma Frm_op_copy : forall o, Frm (op_copy o).
+Lemma frame_of_hframe : forall st h pt, hframe (heap st) h -> frame st (mkState h (inflight st) pt).
 Proof.
-  intros o st. unfold op_copy.
-  pose proof (copy_val_appends FUEL (VRef o) (mkC (heap st) [] (ptab st) [])) as (ext & E & F).
-  destruct (copy_val FUEL (VRef o) (mkC (heap st) [] (ptab st) [])) as [cs v]. simpl in *. rewrite E. now apply frame_extend.
+  intros st h pt (L & E & N). split; [reflexivity|]. split.
+  - intros o ob G. now apply E.
+  - intros o ob' G G'. now apply (N o ob').
+Qed.
+
+Lemma Frm_op_copy : forall cfg o, Frm (op_copy cfg o).
+Proof.
+  intros cfg o st. unfold op_copy.
+  pose proof (copy_val_hframe cfg false FUEL (VRef o) (copy_start st)) as H.
+  destruct (copy_val cfg false FUEL (VRef o) (copy_start st)) as [cs v]. simpl in *. now apply frame_of_hframe.
+Qed.
+
+Lemma Frm_op_restore : forall cfg o m, Frm (op_restore cfg o m).
+Proof.
+  intros cfg o m st. unfold op_restore. destruct m.
+  - destruct (get st o) as [ob|]; simpl; [|apply frame_refl]. apply frame_of_hframe.
+    apply (hframe_trans _ (heap st ++ [with_cache ob []])); [now apply hframe_app|].
+    destruct (gtuple cfg && trestore cfg && is_pm_kind (okind ob)); [apply hframe_retuple|apply hframe_refl].
+  - pose proof (copy_val_hframe cfg true FUEL (VRef o) (copy_start st)) as H.
+    destruct (copy_val cfg true FUEL (VRef o) (copy_start st)) as [cs v]. simpl in *.
+    destruct (gtuple cfg && negb (trestore cfg) && cbad cs); simpl; [apply frame_refl|now apply frame_of_hframe].
+Qed.
+
+(* a copy never changes kind / attributes / item number of an object that existed before it started *)
+Definition hcomp (base : nat) (h h' : list obj) : Prop :=
+  forall x, x < base -> match nth_error h' x, nth_error h x with
+                        | Some b, Some a => Some (okind b, oattrs b, onitems b) = Some (okind a, oattrs a, onitems a)
+                        | None, None => True
+                        | Some _, None => True
+                        | None, Some _ => False
+                        end.
+Lemma hcomp_refl : forall base h, hcomp base h h.
+Proof. intros base h x Hx. destruct (nth_error h x); auto. Qed.
+Lemma hcomp_trans : forall base a b c, hcomp base a b -> hcomp base b c -> hcomp base a c.
+Proof.
+  intros base a b c H1 H2 x Hx. specialize (H1 x Hx). specialize (H2 x Hx).
+  destruct (nth_error c x), (nth_error b x), (nth_error a x); auto; try contradiction; congruence.
+Qed.
+Lemma hcomp_app : forall base h y, hcomp base h (h ++ [y]).
+Proof.
+  intros base h y x Hx. destruct (nth_error h x) as [a|] eqn:G.
+  - rewrite nth_error_app1 by (apply nth_error_Some; congruence). now rewrite G.
+  - destruct (nth_error (h ++ [y]) x); auto.
+Qed.
+Lemma hcomp_update_ge : forall base h i y, base <= i -> hcomp base h (update h i y).
+Proof.
+  intros base h i y Hi x Hx. rewrite nth_error_update_neq by lia. destruct (nth_error h x); auto.
+Qed.
+Lemma hcomp_update_same : forall base h i ub y, nth_error h i = Some ub ->
+  okind y = okind ub -> oattrs y = oattrs ub -> onitems y = onitems ub -> hcomp base h (update h i y).
+Proof.
+  intros base h i ub y G K A N x Hx. destruct (Nat.eq_dec i x) as [->|Hne].
+  - rewrite nth_error_update_eq by (apply nth_error_Some; congruence). rewrite G. now rewrite K, A, N.
+  - rewrite nth_error_update_neq by auto. destruct (nth_error h x); auto.
+Qed.
+Lemma hcomp_retuple : forall b base0 base attrs h, hcomp base0 h (retuple b base h attrs).
+Proof.
+  intros b base0 base. unfold retuple. induction attrs as [|[k v] attrs IH]; intros h; simpl; [apply hcomp_refl|].
+  apply (hcomp_trans base0 h (retuple_one b base h (k, v))); [|apply IH].
+  unfold retuple_one. simpl. destruct v as [p|c|u]; try apply hcomp_refl.
+  destruct (Nat.leb base u); [|apply hcomp_refl]. destruct (nth_error h u) as [ub|] eqn:G; [|apply hcomp_refl].
+  destruct (okind ub) eqn:K; try apply hcomp_refl. apply (hcomp_update_same base0 h u ub); auto.
+Qed.
+
+Lemma retuple_length : forall b base attrs h, List.length (retuple b base h attrs) = List.length h.
+Proof.
+  intros b base. unfold retuple. induction attrs as [|[k v] attrs IH]; intros h; simpl; auto.
+  rewrite IH. unfold retuple_one. simpl. destruct v as [p|c|u]; auto.
+  destruct (Nat.leb base u); auto. destruct (nth_error h u) as [ub|]; auto. destruct (okind ub); auto. apply update_length.
+Qed.
+
+Lemma copy_attrs_comp : forall base f, (forall v cs, base <= List.length (cheap cs) ->
+     hcomp base (cheap cs) (cheap (fst (f v cs))) /\ base <= List.length (cheap (fst (f v cs)))) ->
+  forall l cs, base <= List.length (cheap cs) ->
+     hcomp base (cheap cs) (cheap (fst (copy_attrs f l cs))) /\ base <= List.length (cheap (fst (copy_attrs f l cs))).
+Proof.
+  intros base f Hf. induction l as [|[k v] l IH]; intros cs Hb; simpl; [split; [apply hcomp_refl|auto]|].
+  pose proof (Hf v cs Hb) as [A1 B1]. destruct (f v cs) as [cs1 v']. simpl in *.
+  pose proof (IH cs1 B1) as [A2 B2]. destruct (copy_attrs f l cs1) as [cs2 r']. simpl in *.
+  split; auto. now apply (hcomp_trans base (cheap cs) (cheap cs1) (cheap cs2)).
+Qed.
+
+Lemma copy_val_comp_gen : forall cfg db base n v cs, base <= List.length (cheap cs) ->
+  hcomp base (cheap cs) (cheap (fst (copy_val cfg db n v cs))) /\ base <= List.length (cheap (fst (copy_val cfg db n v cs))).
+Proof.
+  intros cfg db base. induction n as [|n IH]; intros v cs Hb; destruct v as [p|c|c]; simpl;
+    try (split; [apply hcomp_refl|auto]; fail).
+  - destruct (if db then None else nassoc p (cpmemo cs)); [split; [apply hcomp_refl|auto]|].
+    destruct (nth_error (cptab cs) p); split; auto; apply hcomp_refl.
+  - destruct (if db then None else nassoc c (cmemo cs)); split; auto; apply hcomp_refl.
+  - destruct (if db then None else nassoc p (cpmemo cs)); [split; [apply hcomp_refl|auto]|].
+    destruct (nth_error (cptab cs) p); split; auto; apply hcomp_refl.
+  - destruct (if db then None else nassoc c (cmemo cs)); [split; [apply hcomp_refl|auto]|].
+    destruct (nth_error (cheap cs) c) as [ob|]; [|split; [apply hcomp_refl|auto]].
+    set (nb := if db then with_nitems (with_frozen (with_cache ob []) false) (db_nitems ob) else with_cache ob []).
+    set (cs1 := mkC (cheap cs ++ [nb]) _ _ _ _ _).
+    assert (Hb1 : base <= List.length (cheap cs1)) by (unfold cs1; simpl; rewrite app_length; simpl; lia).
+    pose proof (copy_attrs_comp base (copy_val cfg db n) IH (oattrs ob) cs1 Hb1) as [H2 B2].
+    pose proof (copy_attrs_hframe (copy_val cfg db n) (copy_val_hframe cfg db n) (oattrs ob) cs1) as (L & _).
+    destruct (copy_attrs (copy_val cfg db n) (oattrs ob) cs1) as [cs2 a']. simpl in *.
+    assert (Hlen : List.length (cheap cs) < List.length (cheap cs2)).
+    { rewrite app_length in L. simpl in L. lia. }
+    split.
+    + apply (hcomp_trans base _ (cheap cs ++ [nb])); [apply hcomp_app|].
+      apply (hcomp_trans base _ (cheap cs2)); [exact H2|].
+      apply (hcomp_trans base _ (update (cheap cs2) (List.length (cheap cs)) (with_attrs nb a'))); [now apply hcomp_update_ge|].
+      destruct (gtuple cfg && trestore cfg && is_pm_kind (okind ob)); [apply hcomp_retuple|apply hcomp_refl].
+    + destruct (gtuple cfg && trestore cfg && is_pm_kind (okind ob)).
+      * rewrite retuple_length, update_length. lia.
+      * rewrite update_length. lia.
+Qed.
+
+Lemma copy_val_comp : forall cfg db n v cs x, x < List.length (cheap cs) ->
+  match nth_error (cheap (fst (copy_val cfg db n v cs))) x with
+  | Some b => Some (okind b, oattrs b, onitems b) | None => None end =
+  match nth_error (cheap cs) x with Some a => Some (okind a, oattrs a, onitems a) | None => None end.
+Proof.
+  intros cfg db n v cs x Hx.
+  destruct (copy_val_comp_gen cfg db (List.length (cheap cs)) n v cs (le_n _)) as [H _].
+  specialize (H x Hx). destruct (nth_error (cheap cs) x) as [a|] eqn:G.
+  - destruct (nth_error (cheap (fst (copy_val cfg db n v cs))) x); [exact H|contradiction].
+  - apply nth_error_None in G. lia.
 Qed.
